@@ -285,8 +285,12 @@ def find_from_filter(context, file_filter, *, file_type=None, dir_type=None,
 
     if cache:
         try:
-            return [types[_path_type(i)](i, dist=dist) for i in
-                    context.build['find_cache'][file_filter].found]
+            cached = context.build['find_cache'][file_filter]
+            # Make sure that the "extra" files still get added to the source
+            # distribution when the results come from the cache.
+            for i in cached.extra:
+                extra_types[_path_type(i)](i, dist=dist)
+            return [types[_path_type(i)](i, dist=dist) for i in cached.found]
         except KeyError:
             pass
 
@@ -388,7 +392,13 @@ def find_check_cache(context):
 @make.post_rules_hook
 def make_find_dirs(build_inputs, buildfile, env):
     if build_inputs['find_dirs']:
-        write_depfile(env, Path(depfile_name), make.filepath,
+        # If the regeneration step has several outputs, the make backend
+        # attaches its recipe to a stamp file, so that's what needs to depend
+        # on the directories we searched.
+        regen_files = regenerate.RegenerateFiles.make(build_inputs, env)
+        target = (make.filepath.addext('.stamp')
+                  if len(regen_files.outputs) > 1 else make.filepath)
+        write_depfile(env, Path(depfile_name), target,
                       build_inputs['find_dirs'], makeify=True)
         buildfile.include(depfile_name)
 
